@@ -444,6 +444,87 @@ fn run_executor_scenario(wtype: usize, body: &[usize], bwrite: usize, end_exec: 
 
 /// `n` keys w0..w(n-1) are watched (one WATCH naming all of them, or one WATCH per key); key `changed` (None: none)
 /// is overwritten between WATCH and MULTI; the body is one SET. level = "executor" | "connection".
+/// Commands of the pipelined part: plain SETs and GETs (runs of them are what a batching fast path would pick up), values
+/// long enough that a whole run plus EXEC exceeds any "worth batching" buffer threshold, and two other commands.
+const PIPE_OPS: &[&str] = &["SET s aaaaaaaaaaaaaaaaaaaaaaaa", "SET k bbbbbbbbbbbbbbbbbbbbbbbb", "GET s", "GET k", "INCR n", "DEL s"];
+/// (min_pipeline_buffer, batch_threshold): the defaults, and a configuration in which the smallest run is worth batching
+const PIPE_CFGS: &[(usize, usize)] = &[(60, 2), (1, 1), (70, 6)];
+
+/// A transaction that arrives in ONE read (`MULTI`, the body and `EXEC`/`DISCARD` pipelined, as client libraries send it)
+/// must be answered, and must leave the keyspace, exactly as the same transaction sent command by command.
+/// `watch`: 0 none, 1 `WATCH s` kept, 2 `WATCH s` broken by a second connection before MULTI.
+fn pipelined_case(shards: usize, cfgi: usize, body: &[usize], end_exec: bool, watch: usize) -> Result<(), (String, String)> {
+    polex::with_runtime(|rt| {
+        rt.block_on(async {
+            let mach = |e: String| ("harness-io".to_string(), e);
+            let l = |s: &str| resp::line(s);
+            let (mpb, bt) = PIPE_CFGS[cfgi];
+            let mut cfg = ConnectionConfig::default();
+            cfg.min_pipeline_buffer = mpb;
+            cfg.batch_threshold = bt;
+            let mut outcomes: Vec<(Vec<String>, String)> = Vec::new();
+            for pipelined in [false, true] {
+                let mut w = ConnWorld::new(shards);
+                let (a, _) = w.connect("A", cfg.clone());
+                let (b, _) = w.connect("B", cfg.clone());
+                let mut world = World { w, a, b };
+                world.one(false, &l("SET s old")).await.map_err(mach)?;
+                if watch > 0 {
+                    world.one(true, &l("WATCH s")).await.map_err(mach)?;
+                }
+                if watch == 2 {
+                    world.one(false, &l("SET s changed")).await.map_err(mach)?;
+                }
+                let mut cmds: Vec<Argv> = vec![l("MULTI")];
+                cmds.extend(body.iter().map(|b| l(PIPE_OPS[*b])));
+                cmds.push(l(if end_exec { "EXEC" } else { "DISCARD" }));
+                let mut replies: Vec<String> = Vec::new();
+                if pipelined {
+                    let mut bytes = Vec::new();
+                    for c in &cmds {
+                        bytes.extend_from_slice(&resp::wire(c));
+                    }
+                    world.a.push(&bytes);
+                    world.w.settle().await.map_err(mach)?;
+                    let (rs, rest) = decode_replies(&world.a.take_written());
+                    if !rest.is_empty() {
+                        return Err(("pipelined-transaction garbage-output".to_string(), format!("undecodable output {}", resp::esc(&rest))));
+                    }
+                    replies.extend(rs.iter().map(resp::show));
+                } else {
+                    for c in &cmds {
+                        for r in world.send(true, c).await.map_err(mach)? {
+                            replies.push(resp::show(&r));
+                        }
+                    }
+                }
+                let ks = world.keyspace().await.map_err(mach)?;
+                outcomes.push((replies, dump::show_keyspace(&ks)));
+            }
+            let names: Vec<&str> = body.iter().map(|b| PIPE_OPS[*b].split(' ').next().unwrap()).collect();
+            let ctx = format!(
+                "shards={shards} min_pipeline_buffer={mpb} batch_threshold={bt}; {}MULTI; {}; {} sent in one write",
+                ["", "WATCH s; ", "WATCH s; (other connection: SET s changed); "][watch],
+                body.iter().map(|b| PIPE_OPS[*b]).collect::<Vec<_>>().join("; "),
+                if end_exec { "EXEC" } else { "DISCARD" }
+            );
+            if outcomes[0].0 != outcomes[1].0 {
+                return Err((
+                    format!("pipelined-transaction replies-differ body=[{}] end={}", names.join(","), if end_exec { "EXEC" } else { "DISCARD" }),
+                    format!("{ctx}: replies {:?}; the same commands sent one per write are answered {:?}", outcomes[1].0, outcomes[0].0),
+                ));
+            }
+            if outcomes[0].1 != outcomes[1].1 {
+                return Err((
+                    format!("pipelined-transaction keyspace-differs body=[{}] end={}", names.join(","), if end_exec { "EXEC" } else { "DISCARD" }),
+                    format!("{ctx}: keyspace afterwards {}; after the same commands sent one per write {}", outcomes[1].1, outcomes[0].1),
+                ));
+            }
+            Ok(())
+        })
+    })
+}
+
 fn multi_watch_case(level: &str, n: usize, one_command: bool, changed: Option<usize>, shards: usize) -> Result<(), (String, String)> {
     let keys: Vec<String> = (0..n).map(|i| format!("w{i}")).collect();
     let mut script: Vec<String> = keys.iter().map(|k| format!("SET {k} a")).collect();
@@ -650,6 +731,20 @@ fn main() {
                 }
             }
         }
+        if r["pipelined"] == json!(true) {
+            let body: Vec<usize> = r["body"].as_array().unwrap().iter().map(|b| PIPE_OPS.iter().position(|x| *x == b.as_str().unwrap()).unwrap()).collect();
+            match pipelined_case(r["shards"].as_u64().unwrap() as usize, r["cfg"].as_u64().unwrap() as usize, &body, r["end_exec"].as_bool().unwrap(), r["watch"].as_u64().unwrap() as usize) {
+                Ok(()) => {
+                    println!("replay: no violation");
+                    std::process::exit(0);
+                }
+                Err((sig, detail)) => {
+                    println!("{detail}");
+                    println!("VIOLATION property=C05 replay={} ({sig})", path.display());
+                    std::process::exit(1);
+                }
+            }
+        }
         if r["multi_watch"] == json!(true) {
             let changed = r["changed"].as_i64().filter(|c| *c >= 0).map(|c| c as usize);
             match multi_watch_case(r["level"].as_str().unwrap(), r["n"].as_u64().unwrap() as usize, r["one_command"].as_bool().unwrap(), changed, r["shards"].as_u64().unwrap_or(2) as usize) {
@@ -803,6 +898,33 @@ fn main() {
             rep.violation(sig, detail, json!({"multi_watch": true, "level": level, "n": n, "one_command": one_command, "changed": changed.map(|c| c as i64).unwrap_or(-1), "shards": shards}));
         }
     });
+    // transactions that arrive in one read
+    let pipe_bodies = bodies(if thorough { 4 } else { 3 }, &(0..PIPE_OPS.len()).collect::<Vec<_>>());
+    let mut pipe_items: Vec<(usize, usize, usize, bool, usize)> = Vec::new();
+    for shards in shard_opts {
+        for cfgi in 0..PIPE_CFGS.len() {
+            for (bi, b) in pipe_bodies.iter().enumerate() {
+                // the third configuration (batch threshold 6) only matters for long runs: keep it to bodies of plain SET / GET
+                if cfgi == 2 && (b.len() < 3 || b.iter().any(|o| *o > 3)) {
+                    continue;
+                }
+                for end_exec in [true, false] {
+                    for watch in 0..3usize {
+                        if watch > 0 && (!end_exec || b.len() > 2) {
+                            continue;
+                        }
+                        pipe_items.push((*shards, cfgi, bi, end_exec, watch));
+                    }
+                }
+            }
+        }
+    }
+    par::par_map(&pipe_items, |_, (shards, cfgi, bi, end_exec, watch)| {
+        evals.fetch_add(1, Ordering::Relaxed);
+        if let Err((sig, detail)) = pipelined_case(*shards, *cfgi, &pipe_bodies[*bi], *end_exec, *watch) {
+            rep.violation(sig, detail, json!({"pipelined": true, "shards": shards, "cfg": cfgi, "body": pipe_bodies[*bi].iter().map(|o| PIPE_OPS[*o]).collect::<Vec<_>>(), "end_exec": end_exec, "watch": watch}));
+        }
+    });
     // command-set sweep
     let insts = sweep_instances();
     let sweep_items: Vec<(usize, usize, usize)> = shard_opts.iter().flat_map(|sh| (0..insts.len()).flat_map(move |i| (0..SWEEP_SEEDS.len()).map(move |s| (*sh, i, s)))).collect();
@@ -836,6 +958,8 @@ fn main() {
         "two_transactions_on_one_connection_scenarios": chained,
         "executor_level_scenarios": ex_items.len(),
         "several_watched_keys_cases": mw_items.len(),
+        "pipelined_transaction_cases": pipe_items.len(),
+        "pipelined_transaction_rule": "MULTI, a body of <=3 (thorough 4) commands over plain SET / GET of two keys, INCR, DEL, and EXEC or DISCARD sent in ONE write (with WATCH kept / broken beforehand for short bodies), under three (min_pipeline_buffer, batch_threshold) configurations, 1 and 2 shards: replies and keyspace equal those of the same commands sent one per write",
         "command_set_sweep": {"command_instances": insts.len(), "cases": sweep_items.len(), "key_types": SWEEP_SEEDS.iter().map(|x| x.0).collect::<Vec<_>>(),
             "not_compared": "TIME, INFO, RANDOMKEY, ACL GENPASS, SPOP without count (random or time-dependent); MULTI/EXEC/DISCARD/WATCH/UNWATCH (covered by the scenarios)"},
         "exhaustive": true,
